@@ -537,6 +537,7 @@ func (v *PacketDslVisitorImpl) VisitMatchFieldDeclaration(ctx *gen.MatchFieldDec
 			})
 			continue
 		}
+		pairsMap[pair.Key] = pair
 	}
 	return &model.Field{
 		Name:     matchName,
